@@ -141,6 +141,7 @@ func (r *raftNode) applyOperation(ctx context.Context, op *proto.RaftLog,
 		panic(err)
 	}
 
+	verifGate("raft.apply.enter")
 	// We will acquire the mutex to prevent Raft operations from interleaving
 	// such that preconditions can be validated.
 	r.Lock()
@@ -162,6 +163,7 @@ func (r *raftNode) applyOperation(ctx context.Context, op *proto.RaftLog,
 		}
 	}
 
+	verifGate("raft.apply.checked")
 	// Apply the Raft Operation.
 	return newTimeoutFuture(deadline, r.Apply(data, time.Until(deadline))), nil
 }
